@@ -79,6 +79,14 @@ func ensureSDKConfig() {
 	}
 }
 
+const SharedKeys = 4
+
+const (
+	SoleDenom  = "usole"
+	SoleHolder = 3
+	SoleSupply = 1000
+)
+
 func NewEnv() *Env {
 	ensureSDKConfig()
 	e := &Env{byAddr: map[string]*Account{}}
@@ -90,6 +98,12 @@ func NewEnv() *Env {
 	}
 	for i := 0; i < NumDidKeys; i++ {
 		k := tmsecp.GenPrivKeySecp256k1([]byte(fmt.Sprintf("panasim-did-key-%d", i)))
+		if i < SharedKeys {
+			// the first DID keys ARE the keys of accounts 0..SharedKeys-1: a holder who controls a DID with the key
+			// that also signs the holder's transactions (the relaying account's address is then derived from the
+			// DID's authentication key)
+			k = tmsecp.PrivKey(e.Accs[i].Priv.Key)
+		}
 		e.DidKeys = append(e.DidKeys, k)
 		e.Dids = append(e.Dids, didtypes.NewDID(k.PubKey().Bytes()))
 	}
@@ -157,6 +171,13 @@ func (e *Env) BuildGenesis(a *app.App, gs *GenesisSpec) ([]byte, *Model) {
 		gaccs = append(gaccs, authtypes.NewBaseAccount(acc.Addr, acc.Priv.PubKey(), acc.Num, 0))
 		cs := sdk.NewCoins(sdk.NewInt64Coin(FeeDenom, 1_000_000_000_000_000))
 		for _, d := range gs.ExtraDenoms {
+			if d == SoleDenom {
+				// a denomination with a single holder and a small supply: all of it can end up at the burn address
+				if acc.Idx == SoleHolder {
+					cs = cs.Add(sdk.NewInt64Coin(d, SoleSupply))
+				}
+				continue
+			}
 			if d == WhaleDenom {
 				huge, _ := sdk.NewIntFromString("1000000000000000000000000000000000000000000") // 10^42: amounts far beyond int64/uint64
 				cs = cs.Add(sdk.NewCoin(d, huge))
